@@ -17,10 +17,18 @@
 (*   ModelReused     : a later analysis gets the very same model object     *)
 (*                     (today FALSE: inspect() re-reads the model from its   *)
 (*                     pickle on every call, _runtime_cache is overwritten) *)
+(*   DeadlineOnProcessClock : the time limit of the LCD search is compared   *)
+(*                     with a clock of the PROCESS (CPU time, time since     *)
+(*                     start) instead of the time the search has taken, so   *)
+(*                     an analysis in a process older than AgeLimit is cut   *)
+(*                     (today FALSE: time.time() - start_time)               *)
+(* `age` is the time the process has consumed so far in abstract units      *)
+(* (saturating at MaxAge); an analysis and the step Work (the process       *)
+(* computes or sleeps, no analysis) advance it.                             *)
 (***************************************************************************)
 EXTENDS Naturals, Sequences, FiniteSets, TLC, Json, CSV, IOUtils
 
-CONSTANTS InPlaceMutation, ModelReused
+CONSTANTS InPlaceMutation, ModelReused, DeadlineOnProcessClock, AgeLimit, MaxAge
 
 \* the 8 request kinds replayed on the implementation (harness/checks/c18.py: REQUESTS)
 ReqTable ==
@@ -40,8 +48,10 @@ Isas  == { ReqTable[r].isa : r \in Req }
 Rep(r, t) == <<r, t>>
 Ref(r)    == Rep(r, 0)
 NoRep     == <<0, 0>>
+CutMark   == 1000                 \* the report of a search that was cut short although it needs no time
+Older(a)  == IF a < MaxAge THEN a + 1 ELSE a
 
-InitSession == [ loaded |-> {}, parsers |-> {}, shared |-> [a \in Archs |-> 0], last |-> NoRep ]
+InitSession == [ loaded |-> {}, parsers |-> {}, shared |-> [a \in Archs |-> 0], last |-> NoRep, age |-> 0 ]
 
 \* taint of the model object the analysis of r works on
 Seen(s, r) == IF ModelReused /\ ReqTable[r].arch \in s.loaded THEN s.shared[ReqTable[r].arch] ELSE 0
@@ -54,5 +64,8 @@ AnalyzeEffect(s, r) ==
        \* the mutation hits the process-wide object only if that object is what later calls get
        shared  |-> IF InPlaceMutation /\ ReqTable[r].rmw /\ ModelReused
                      THEN [s.shared EXCEPT ![a] = t + 1] ELSE s.shared,
-       last    |-> Rep(r, t) ]
+       last    |-> IF DeadlineOnProcessClock /\ s.age >= AgeLimit THEN Rep(r, CutMark) ELSE Rep(r, t),
+       age     |-> Older(s.age) ]
+\* the process does something that is not an analysis (computes, sleeps): only its clocks advance
+WorkEffect(s) == [s EXCEPT !.age = Older(s.age)]
 =============================================================================
